@@ -47,6 +47,9 @@ def run(ctx) -> None:
     ctx.rule("R5", "in any project directory: a pyproject.toml without a bumpver section (other [tool.*] tables) is read without an error (C18's TOML section rule)")
     from checks.c18 import toml_section_eval
     toml_section_eval(ctx, "R5")
+    # ... and `show` reports what init wrote: a repository further up the directory tree is not this project's VCS (C11's marker rule)
+    from checks.c11 import vcs_marker_rule
+    vcs_marker_rule(ctx, "R5")
     ctx.rule("R4", "file choice: candidates == SUPPORTED_CONFIGS; configured files first, then existing, then bumpver.toml; self-snippets cover the candidates")
 
     # ---------------------------------------------------------------- R1
